@@ -84,6 +84,7 @@ AtEnd(a, b) ==
                    \cup (IF sc.died THEN {"x_died"} ELSE {})
                    \cup TrackViolations(In, CfgOf(sc), recs, tracks)
                    \cup (IF sensEv.ok THEN SensorViolations(sc.ref, sensEv.list) ELSE {})
+                   \cup (IF "sod" \in DOMAIN sc THEN MetaViolations(In, sc.sod, recs) ELSE {})
           IN /\ \A c \in V : PrintT(<<"REJECT", a, c>>)
              /\ IF V = {} THEN PrintT(<<"STRICT", a, Strict(In, sc.w, recs)>>) ELSE TRUE
 
